@@ -52,6 +52,9 @@ struct SchedulerBlockInfo {
     batch_mode: BatchMode,
     /// Whether this block has `NextStrategy::OnlyOne`.
     is_only_one_strategy: bool,
+    /// The replication requirement of the block, for the verification graph dump.
+    #[cfg(feature = "verif")]
+    replication: Replication,
 }
 
 /// The `Scheduler` is the entity that keeps track of all the blocks of the job graph and when the
@@ -265,6 +268,41 @@ impl Scheduler {
         }
     }
 
+    /// Build the execution graph and the address map exactly as `start_blocking` would, without
+    /// starting any worker or network thread, and return them.
+    #[cfg(feature = "verif")]
+    pub(crate) fn verif_graph_dump(mut self) -> crate::verif::GraphDump {
+        self.build_execution_graph();
+        self.network.build();
+        let mut blocks: Vec<_> = self
+            .block_info
+            .iter()
+            .map(|(&block_id, info)| {
+                let mut replicas: Vec<_> = info
+                    .replicas
+                    .values()
+                    .flatten()
+                    .map(|c| (*c, info.global_ids[c]))
+                    .collect();
+                replicas.sort();
+                crate::verif::BlockDump {
+                    block_id,
+                    repr: info.repr.clone(),
+                    replication: format!("{:?}", info.replication),
+                    is_only_one_strategy: info.is_only_one_strategy,
+                    replicas,
+                }
+            })
+            .collect();
+        blocks.sort_by_key(|b| b.block_id);
+        let (links, addresses) = self.network.verif_dump();
+        crate::verif::GraphDump {
+            blocks,
+            links,
+            addresses,
+        }
+    }
+
     /// Get the ids of the previous blocks of a given block in the job graph
     pub(crate) fn prev_blocks(&self, block_id: BlockId) -> Option<Vec<(BlockId, TypeId)>> {
         self.prev_blocks.get(&block_id).cloned()
@@ -368,6 +406,8 @@ impl Scheduler {
             global_ids: global_ids.into_iter().collect(),
             batch_mode: block.batch_mode,
             is_only_one_strategy: block.is_only_one_strategy,
+            #[cfg(feature = "verif")]
+            replication,
         }
     }
 
@@ -438,6 +478,8 @@ impl Scheduler {
             global_ids,
             batch_mode: block.batch_mode,
             is_only_one_strategy: block.is_only_one_strategy,
+            #[cfg(feature = "verif")]
+            replication,
         }
     }
 }
